@@ -5,6 +5,7 @@
 //   jremove <keyhex>            remove(key)                     -> ok
 //   jflush                      flush()                         -> ok | <file events>
 //   jdump                       the in-memory document          -> doc:<hex of dump()>
+//   jreopen                     clean close + new instance on the same directory          -> doc:<hex of dump()>
 //   jimage <file|none> <tmp|none>   a new process on a crash image: destroy the store object WITHOUT letting it touch the image
 //                               (new directory), construct a fresh JsonFileStore on the image  -> doc:<hex of dump()>
 #include "kv_interpose.hpp"
@@ -82,6 +83,14 @@ int main()
           kvh::takeEvents();
           ans = "doc:" + vh::toHex(store->_store.dump());
         }
+      }
+      else if (store && t.size() == 1 && t[0] == "jreopen")
+      { // clean close (the destructor flushes a dirty store) and a new instance on the same directory
+        store.reset();
+        kvh::takeEvents();
+        store = std::make_unique<JsonFileStore>(kvh::g_base);
+        kvh::takeEvents();
+        ans = "doc:" + vh::toHex(store->_store.dump());
       }
       else if (store && t.size() == 3 && t[0] == "jset" && vh::ofHex(t[1], a) && vh::ofHex(t[2], b))
       {
